@@ -13,19 +13,30 @@ value) triples of ``list(env.lex(src))`` must
    other text: the concatenated ``data`` values equal the model's kept runs;
 3. report for every non-empty token the line on which its first character
    lies in the source (1 + number of line breaks before it).
+
+The blanks of the sources come from the whole whitespace class, not only space
+and tab: form feed, vertical tab, NEL, no-break space, em space, line separator,
+ideographic space ... alone or mixed (vt.gen.c39_ws); none of them is a line
+break of a template source.  See ASSUMPTIONS for what is demanded there.
 """
 from __future__ import annotations
 
 import itertools
 
 from vt.gen import c12_skel as G
+from vt.gen import c39_ws as W
 from vt.model import c12_trim as M
 
 PID = "C39"
 LEVEL = "exploration"
 RULE = ("source = C12 skeleton (text runs over space/tab/LF/CRLF/CR/letters alternating with block, "
         "comment, variable and raw tags, every documented '-'/'+' modifier) whose tags may span "
-        "lines (multi-line expressions, strings, comments, raw bodies), built with one of 4 "
+        "lines (multi-line expressions, strings, comments, raw bodies); in every other random "
+        "source (and 30% of the overlay sources) the blanks - indentation before tags, whitespace "
+        "after tags and next to '-'/'+', in raw bodies and between the words inside tags - are "
+        "drawn from 12 further Unicode White_Space characters (FF, VT, NEL, NBSP, em/hair/narrow/"
+        "medium-math/ogham/ideographic space, LS, PS), alone or mixed with spaces/tabs, plus ZERO "
+        "WIDTH SPACE as a blank-looking text character; built with one of 4 "
         "delimiter sets, lexed under all 4 trim_blocks/lstrip_blocks settings (and "
         "keep_trailing_newline on/off); plus line-statement/line-comment sources without "
         "modifiers (there, additionally, no data token may contain the '#' of a line statement / "
@@ -36,16 +47,51 @@ RULE = ("source = C12 skeleton (text runs over space/tab/LF/CRLF/CR/letters alte
         "checked against the model run with ITS OWN trim_blocks/lstrip_blocks/"
         "keep_trailing_newline/line prefixes, the base again after the overlay exists. "
         "Exhaustive: all tag sequences of <=2 tags x modifiers x settings over fixed "
-        "run sets; then random 1-8 tag sources. One evaluation = one env.lex call checked for "
+        "run sets, once with space/tab runs and once with runs of the other whitespace "
+        "characters (alone at the source start / after a line break, mixed with spaces, after "
+        "text, before and after the line break following a tag); then random 1-8 tag sources. "
+        "One evaluation = one env.lex call checked for "
         "losslessness, data-token content and the line of every token. distinct = distinct "
         "(delimiter set, settings, left/right neighbour kind+modifier, run class, number of "
         "line breaks stripped before the next token) gap contexts + distinct (delimiter set, "
         "token type, starts-after-stripped-newline, inside-multi-line-tag) token contexts")
 TECHNIQUE = "token-stream alignment against the normalised source with model-predicted optional gaps; per-token line oracle"
-LEVEL_TEXT = ("held on K lexed sources covering every modifier/setting combination for <=2 tags, "
-              "random sources up to 8 tags with multi-line tags, 4 delimiter sets and line "
-              "statements; says nothing about sources that do not lex (syntax errors)")
+LEVEL_TEXT = ("held on K lexed sources covering every modifier/setting combination for <=2 tags "
+              "(space/tab runs and runs of other Unicode whitespace), random sources up to 8 tags "
+              "with multi-line tags, 4 delimiter sets and line statements; says nothing about "
+              "sources that do not lex (syntax errors), about non-space/tab whitespace in "
+              "line-statement sources, or about characters Python but not Unicode calls "
+              "whitespace (U+001C-U+001F)")
 ASSUMPTIONS = [
+    "whitespace class. The docs never define 'whitespace': the Whitespace Control section speaks "
+    "of 'other whitespace (spaces, tabs, newlines etc.)', says of '-' that 'the whitespaces before "
+    "or after that block will be removed' (no restriction), and of lstrip_blocks 'strip tabs and "
+    "spaces from the beginning of a line to the start of a block' (api.rst: 'leading spaces and "
+    "tabs'); the property statements (C12/C39) use the one word 'whitespace' for every rule: '-' "
+    "'removes all adjacent whitespace', lstrip_blocks 'removes the whitespace between the start "
+    "of a line and a block or comment tag when nothing else precedes the tag on that line'. "
+    "Decision: (a) '-' removes every character with the Unicode White_Space property (the "
+    "engine-independent definition of 'whitespace'; the docs put no restriction on '-'); (b) for "
+    "lstrip_blocks the check demands ONE whitespace class in all rules, as the property "
+    "statement words it: a line start that consists only of characters which a '-' on that tag "
+    "would remove as whitespace has 'nothing else' before the tag, so lstrip_blocks removes it "
+    "exactly as it removes spaces and tabs, for all four tag kinds alike, and '+' keeps it; a "
+    "blank-looking non-whitespace character (ZERO WIDTH SPACE) is text and blocks the stripping. "
+    "The enumeration 'tabs and spaces' of the lstrip_blocks docs is read as naming the usual "
+    "indentation characters, not as a second, narrower whitespace class: read literally ('other "
+    "characters' = anything but U+0020/U+0009) it would make a form-feed- or NBSP-indented tag "
+    "keep its indentation while '{%-' on the same tag removes it, and the unchanged engine "
+    "(any \\s) would then contradict its documentation. That wording gap is reported as a "
+    "documentation remark, not as a violation: the property statement says 'the whitespace'. "
+    "Violation keys for runs holding such characters end in ':non-space-tab-ws'",
+    "template line breaks are LF, CRLF, CR only (Lexer.tokeniter: 'Only \\n, \\r\\n and \\r are "
+    "treated as line breaks'): FF, VT, NEL, LS, PS are whitespace but neither start a line for "
+    "lstrip_blocks, nor count for line numbers, nor are the 'first newline' of trim_blocks",
+    "which whitespace characters may separate the words INSIDE a tag is not documented: a "
+    "source with non-space/tab whitespace inside a block/variable/raw tag that the lexer rejects "
+    "with TemplateSyntaxError is skipped (counter exotic_inner_rejected; floors on "
+    "exotic_inner_lexed:* make a run in which none lexes INCONCLUSIVE); when it lexes, the "
+    "three oracles apply",
     "whitespace removed by '-'/trim_blocks/lstrip_blocks may either be absent from the stream or "
     "stay attached to a non-data token; only data tokens are required to be free of it",
     "token values are compared after normalising their line breaks to LF",
@@ -67,7 +113,24 @@ FLOORS = {
                            "cases_custom_delims": 3000, "cases_linestmt": 2000,
                            "overlay_lex_checks": 1500, "overlay_after_base_used": 500,
                            "overlay_before_base_used": 200, "overlay_base_rechecks": 700,
-                           "overlay_linestmt_checks": 100}},
+                           "overlay_linestmt_checks": 100,
+                           "cases_exotic": 10000, "cases_exotic_exhaustive": 12000,
+                           "cases_exotic_random": 5000,
+                           "exotic_removed_by_lstrip:block": 1000,
+                           "exotic_removed_by_lstrip:comment": 500,
+                           "exotic_removed_by_lstrip:raw_open": 200,
+                           "exotic_removed_by_lstrip:raw_close": 90,
+                           "exotic_removed_by_lstrip_mixed_with_blanks": 600,
+                           "exotic_kept_by_plus": 1100,
+                           "exotic_removed_by_minus_left": 4000,
+                           "exotic_removed_by_minus_right": 4500,
+                           "exotic_between_tag_and_newline": 1900,
+                           "exotic_after_trimmed_newline": 1000,
+                           "exotic_in_raw_body": 1900, "exotic_kept_in_data": 20000,
+                           "exotic_inner_lexed:block": 2300, "exotic_inner_lexed:var": 1200,
+                           "exotic_inner_lexed:raw_open": 600,
+                           "exotic_inner_lexed:raw_close": 600,
+                           "zero_width_space_runs": 1000}},
     "thorough": {"evaluations": 700000, "distinct": 20000,
                  "counters": {"lex_calls": 700000, "tokens_line_checked": 15000000,
                               "oracle_lossless": 700000, "oracle_data": 680000,
@@ -216,6 +279,9 @@ def check_tokens(st, p, toks, case, dname, tb, ls, optional_spans=None, check_da
         if got != exp:
             ok = False
             key, g = M.divergence_key(p, exp, got, tb, ls, with_var_out=False)
+            if M.has_exotic(g["run"]):
+                # the diverging run holds whitespace other than space/tab/line breaks
+                key += ":non-space-tab-ws"
             st.record(
                 f"data-whitespace:{dname}:{key}",
                 f"source {case['source']!r} trim_blocks={tb} lstrip_blocks={ls}: data tokens "
@@ -263,12 +329,21 @@ def check_case(st, skel, dname, tb, ls, keep=False, part="random", env=None, lab
     label = label or dname
     ctx.ev()
     ctx.count("lex_calls")
+    exotic = M.has_exotic(p.norm)
+    inner_x = W.inner_exotic_kinds(skel) if exotic else []
     try:
         toks = list((env or st.env(dname, tb, ls, keep)).lex(p.source))
     except Exception as e:
+        if inner_x and type(e).__name__ == "TemplateSyntaxError":
+            # the docs do not say which whitespace characters may separate the words
+            # inside a tag: a source the lexer rejects is outside this property
+            ctx.count("exotic_inner_rejected")
+            return True
         st.record(f"lex-raises:{label}:{type(e).__name__}",
                   f"{type(e).__name__}: {e} for source {p.source!r}", case)
         return False
+    if exotic:
+        exotic_coverage(ctx, p, inner_x, part)
     # gap coverage
     for g in p.gaps:
         if g["rl"] or g["rr"]:
@@ -280,6 +355,41 @@ def check_case(st, skel, dname, tb, ls, keep=False, part="random", env=None, lab
     if dname != "default":
         ctx.count("cases_custom_delims")
     return check_tokens(st, p, toks, case, label, tb, ls)
+
+
+def exotic_coverage(ctx, p, inner_x, part):
+    """Monitor counters of the widened whitespace alphabet: which rules met whitespace
+    other than space/tab/line breaks in this (successfully lexed) source."""
+    ctx.count("cases_exotic")
+    ctx.count("cases_exotic_" + ("exhaustive" if part == "exotic-exhaustive" else "random"))
+    for k in inner_x:
+        ctx.count("exotic_inner_lexed:" + k)
+    for g in p.gaps:
+        run = g["run"]
+        if not M.has_exotic(run):
+            continue
+        left, right = run[:g["a"]], run[g["b"]:]
+        if g["rr"] == "lstrip_blocks" and M.has_exotic(right):
+            ctx.count("exotic_removed_by_lstrip:" + g["B"][0])
+            if right.strip("".join(M.EXOTIC)) != "":
+                ctx.count("exotic_removed_by_lstrip_mixed_with_blanks")
+        if g["rr"] == "plus-cancels-lstrip" and M.has_exotic(run[run.rfind("\n") + 1:]):
+            ctx.count("exotic_kept_by_plus")
+        if g["rr"] == "minus" and M.has_exotic(right):
+            ctx.count("exotic_removed_by_minus_left")
+        if g["rl"] == "minus" and M.has_exotic(left):
+            ctx.count("exotic_removed_by_minus_right")
+        if g["rl"] is None and g["A"] is not None and g["A"][0] in M.TRIM_AFTER \
+                and run[:1] in M.EXOTIC and "\n" in run:
+            ctx.count("exotic_between_tag_and_newline")
+        if g["rl"] == "trim_blocks" and M.has_exotic(g["kept"]):
+            ctx.count("exotic_after_trimmed_newline")
+        if M.has_exotic(g["kept"]):
+            ctx.count("exotic_kept_in_data")
+        if g["raw_body"]:
+            ctx.count("exotic_in_raw_body")
+        if W.ZWSP in run:
+            ctx.count("zero_width_space_runs")
 
 
 # ----------------------------------------------------------- line statements
@@ -407,7 +517,10 @@ def gen_overlay_case(rng):
             srcs.append({"linestmt": linestmt_source(rng)})
         else:
             nt = rng.choice((1, 2, 3, 4, 5))
-            srcs.append({"skel": G.random_skeleton(rng, nt, lex=True, delims=o["dname"])})
+            skel = G.random_skeleton(rng, nt, lex=True, delims=o["dname"])
+            if rng.random() < 0.3:
+                skel = W.exoticize(rng, skel)
+            srcs.append({"skel": skel})
     return {"kind": "overlay", "chain": chain, "srcs": srcs,
             "use": rng.choice(("no", "lex", "from_string", "parse", "lex")),
             "explicit": rng.random() < 0.2}
@@ -505,6 +618,34 @@ def run(ctx):
         ctx.sample({"part": "exhaustive", "source": M.build(G.skeleton_from(
             ("cmt", "var"), (("", "+"), ("-", "")), ("a", "\n\n ", "\n")))})
 
+    # ---- exhaustive, whitespace other than space/tab: <=2 tags, all modifiers x settings
+    for seq in M.tag_sequences(1):
+        for mods in mod_products(seq):
+            for texts in itertools.product(W.T1X, repeat=2):
+                idx += 1
+                if not ctx.mine(idx):
+                    continue
+                skel = G.skeleton_from(seq, mods, texts)
+                for tb, ls in SETTINGS:
+                    check_case(st, skel, "default", tb, ls, part="exotic-exhaustive")
+    t2x_all = W.T2X_TRIPLES
+    for seq in M.tag_sequences(2):
+        for mods in mod_products(seq):
+            idx += 1
+            if not ctx.mine(idx):
+                continue
+            if ctx.elapsed() > ctx.budget_s * 0.6:
+                ctx.exhaustive = False
+                ctx.count("exhaustive_exotic_n2_cut")
+                break
+            for texts in t2x_all:
+                skel = G.skeleton_from(seq, mods, texts)
+                for tb, ls in SETTINGS:
+                    check_case(st, skel, "default", tb, ls, part="exotic-exhaustive")
+    if ctx.shard == 0:
+        ctx.sample({"part": "exotic-exhaustive", "source": M.build(G.skeleton_from(
+            ("cmt", "set"), (("", ""), ("", "-")), ("\n\x0c", " \xa0", "\n\x0c")))})
+
     # ---- line statements / line comments
     rng = ctx.rng("linestmt")
     for i in range(150 if quick else 4000):
@@ -533,6 +674,9 @@ def run(ctx):
         dname = rng.choice(dnames)
         nt = rng.choice((1, 2, 3, 4, 4, 5, 6, 8))
         skel = G.random_skeleton(rng, nt, lex=True, delims=dname)
+        if i % 2 == 0:
+            # every other source: blanks from the whole whitespace class
+            skel = W.exoticize(rng, skel)
         keep = rng.random() < 0.25
         for tb, ls in SETTINGS:
             check_case(st, skel, dname, tb, ls, keep)
